@@ -193,7 +193,7 @@ func (lockH) Execute(c *Case, res *Result) {
 				if op.Who != who {
 					continue
 				}
-				time.Sleep(time.Duration(op.GapMs) * time.Millisecond)
+				time.Sleep(time.Duration(op.GapMs)*time.Millisecond + offGrid(who))
 				l, err := be.newLock(who, key, ttl)
 				if err != nil {
 					res.Probes["createlock_failed"]++
@@ -284,7 +284,7 @@ func (lockH) Execute(c *Case, res *Result) {
 					case <-exitCh:
 					}
 				}()
-				hold := time.Duration(op.HoldMs) * time.Millisecond
+				hold := time.Duration(op.HoldMs)*time.Millisecond + 4*offGrid(who)
 				if op.Loss != "" {
 					// lose the lock in the middle of the hold
 					time.Sleep(hold / 4)
